@@ -247,7 +247,11 @@ func (h *queryHarness) Run(t *testing.T, ci any) *Outcome {
 		return mk("panic:"+panicSite(er.panicV), "%s", firstLines(er.panicV, 25))
 	case len(er.res.Panics) > 0:
 		return mk("panic:"+panicSite(er.res.Panics[0]), "%s", firstLines(er.res.Panics[0], 25))
-	case er.res.StepCap, !er.done, er.res.Deadlock:
+	case er.res.StepCap:
+		o.stat("inconclusive", 1)
+		o.stat("step_budget_exhausted", 1)
+		return o
+	case !er.done, er.res.Deadlock:
 		return mk("hang", "%s", joinLines(er.res.Stuck, 8))
 	}
 	if info.Ambiguous != "" {
